@@ -274,7 +274,7 @@ def gen_storm(st):
         if st.coin(1, 4, "secondary?"):
             scn["targets"].append("syn-y")
     scn["setup"] = ("cold", "warm", "cold+litter", "warm+litter")[st.weighted((4, 3, 1, 1), "setup")]
-    scn["home"] = ("env", "arg", "default")[st.weighted((5, 2, 1), "home")]
+    scn["home"] = ("env", "arg", "default", "env-tilde", "env-slash", "env-rel")[st.weighted((8, 4, 2, 1, 1, 1), "home")]
     scn["discipline"] = ("sticky", "uniform", "pct", "vtime")[st.weighted((3, 3, 2, 2), "discipline")]
     if scn["discipline"] == "pct":
         scn["pct_points"] = [st.draw(0, 120, "pct-point") for _ in range(st.draw(0, 3, "pct-d"))]
@@ -341,7 +341,12 @@ class Run:
         os.makedirs(self.user_home)
         mode = scn.get("home", "env")
         self.home = {"env": self.env_home, "arg": self.alt_home,
-                     "default": os.path.join(self.user_home, ".traffic-weaver-data")}[mode]
+                     "default": os.path.join(self.user_home, ".traffic-weaver-data"),
+                     "env-tilde": os.path.join(self.user_home, "custom-data"),
+                     "env-slash": self.env_home,
+                     "env-rel": os.path.join(self.root, "rel", "data-home")}[mode]
+        self.env_value = {"env": self.env_home, "env-tilde": os.path.join("~", "custom-data"),
+                          "env-slash": self.env_home + os.sep, "env-rel": os.path.join("rel", "data-home")}.get(mode, "")
         self.home_mode = mode
         self.world = self._build_world()
         self.targets = [self.world.ds[t] for t in scn["targets"]]
@@ -754,8 +759,11 @@ class Run:
     def setup(self):
         scn = self.scn
         os.environ["HOME"] = self.user_home
-        if self.home_mode == "env":
-            os.environ["TRAFFIC_WEAVER_DATA"] = self.env_home
+        if self.home_mode.startswith("env"):
+            os.environ["TRAFFIC_WEAVER_DATA"] = self.env_value
+            if self.home_mode == "env-rel":
+                os.makedirs(os.path.join(self.root, "rel"), exist_ok=True)
+                os.chdir(self.root)
         elif self.home_mode == "arg":
             os.environ["TRAFFIC_WEAVER_DATA"] = os.path.join(self.root, "must-not-be-used")
         else:
@@ -881,6 +889,7 @@ def execute(scn, stream, keep_log=False, extra=None, prop="C19"):
                 finally:
                     K.deactivate()
     finally:
+        os.chdir(R.VERIF_DIR)
         for k, v in saved_env.items():
             if v is None:
                 os.environ.pop(k, None)
